@@ -274,3 +274,17 @@ Definition rescale_safe (p : rparams) (x : Z) : bool :=
   in_rangeb 32 (Z.shiftr ((x - zp_in p) * mult p) (shift p - 1)) &&
   in_rangeb 32 (Z.shiftr ((x - zp_in p) * mult p) (shift p) + zp_out p) &&
   (-128 <=? min_int p) && (min_int p <=? max_int p) && (max_int p <=? 127).
+
+(* ---- per-channel rescale parameters: kernel.rescale carries arrays `multiplier` / `shift`; the golden model
+   broadcasts them over the channels (element c uses multiplier[c], shift[c]); LowerRescale reads element 0 *)
+Record rparams_pc := mkRpc { pc_zp_in : Z; pc_zp_out : Z; pc_mults : list Z; pc_shifts : list Z;
+                            pc_max : Z; pc_min : Z; pc_dr : bool }.
+Definition chan (q : rparams_pc) (c : nat) : rparams :=
+  mkR (pc_zp_in q) (pc_zp_out q) (nth c (pc_mults q) 0) (nth c (pc_shifts q) 0) (pc_max q) (pc_min q) (pc_dr q).
+Definition golden_rescale_pc (q : rparams_pc) (c : nat) (x : Z) : Z := golden_rescale (chan q c) x.
+Definition expand_rescale_pc (q : rparams_pc) (x : Z) : Z := expand_rescale (chan q 0) x.
+(* the whole class of F18 as one Gallina predicate: channel c of the golden model is reproduced when the
+   channel uses the parameters of channel 0 and the single-channel input is safe *)
+Definition rescale_safe_pc (q : rparams_pc) (c : nat) (x : Z) : bool :=
+  rescale_safe (chan q c) x &&
+  (nth c (pc_mults q) 0 =? nth 0 (pc_mults q) 0) && (nth c (pc_shifts q) 0 =? nth 0 (pc_shifts q) 0).
